@@ -81,6 +81,11 @@ def main():
         if sys.flags.optimize:
             res["counters"]["shards_run_under_python_O"] = res["counters"].get("shards_run_under_python_O", 0) + 1
         res["sets"]["functions_entered"] = instrument.functions_entered()
+        wsh = sys.modules.get("vlib.wsharness")
+        if wsh is not None and getattr(wsh, "SERVE_KWARGS", None):
+            res["counters"]["servers_started_through_connector.run_server"] = len(wsh.SERVE_KWARGS)
+            res["sets"]["listen_kwargs_passed_by_run_server"] = sorted({json.dumps(k, sort_keys=True)
+                                                                        for k in wsh.SERVE_KWARGS})
         with open(out_path, "w") as f:
             json.dump(res, f)
     except BaseException:
